@@ -107,6 +107,11 @@ class TerminalPredicate(BaseModel):
     logical_operator: LogicalOperatorEnum
     right_term: Union[float, int, str, tuple, Identifier]
 
+    class Config:
+        # keep literals as written: without it the Union is tried left to
+        # right and 18 becomes 18.0, "02134" becomes 2134.0
+        smart_union = True
+
 
 class RecursivePredicate(BaseModel):
     """
